@@ -1,17 +1,24 @@
 #!/bin/bash
 # regress_seeded.sh [budget] -- every seeded change must still be reported (exit 1) by its check,
 # every benign variant must leave its check silent (exit 0). Writes seeded/REGRESSION.txt.
+# Works on the tree named by CELMA_REPO (default /repo) and on the copy of /verif this script
+# lives in, so that it can run in the background from a snapshot (vp run --with-repo) while
+# /repo and /verif stay free.
 budget=${1:-25}
-cd /verif
+export CELMA_REPO=${CELMA_REPO:-/repo}
+repo=$CELMA_REPO
+verif=$(cd "$(dirname "$0")/.." && pwd)
+cd "$verif"
+mkdir -p build evidence
 out=seeded/REGRESSION.txt
 : > $out
 for d in seeded/C*/; do
   name=$(basename $d); prop=${name:0:3}
   [ -f "$d/patch.diff" ] || continue
   cp evidence/$prop.json build/evidence-$prop.keep 2>/dev/null
-  git -C /repo apply /verif/$d/patch.diff || { echo "$name: patch does not apply" | tee -a $out; continue; }
+  git -C $repo apply $verif/$d/patch.diff || { echo "$name: patch does not apply" | tee -a $out; continue; }
   python3 tools/check.py $prop --tier quick --budget $budget > build/regress.log 2>&1; rc=$?
-  git -C /repo checkout -- .
+  git -C $repo checkout -- .
   cp build/evidence-$prop.keep evidence/$prop.json 2>/dev/null
   first=$(grep -m1 -E "^(VIOLATION|SANITIZER|RACE|NONTERMINATION|DEADLOCK|ABORT|EXIT|CRASH)/" build/regress.log | cut -c1-110)
   echo "$name $prop rc=$rc expected=1 $( [ $rc -eq 1 ] && echo OK || echo MISSED ) | $first" | tee -a $out
@@ -20,9 +27,9 @@ for d in seeded/benign/*/; do
   name=$(basename $d); prop=${name:0:3}
   for v in $d/variant*.diff; do
     cp evidence/$prop.json build/evidence-$prop.keep 2>/dev/null
-    git -C /repo apply /verif/$v || { echo "$name/$(basename $v): does not apply" | tee -a $out; continue; }
+    git -C $repo apply $verif/$v || { echo "$name/$(basename $v): does not apply" | tee -a $out; continue; }
     python3 tools/check.py $prop --tier quick --budget $budget > build/regress.log 2>&1; rc=$?
-    git -C /repo checkout -- .
+    git -C $repo checkout -- .
     cp build/evidence-$prop.keep evidence/$prop.json 2>/dev/null
     echo "benign $name/$(basename $v .diff) $prop rc=$rc expected=0 $( [ $rc -eq 0 ] && echo OK || echo ALARM )" | tee -a $out
   done
